@@ -35,6 +35,22 @@ CHECKS = {
    "spec/StreamObject.tla (one action per public setter, _update_attributes transcribed branch by branch incl. the rule that rewrites the target of an isothermal stream) is model-checked over every constructor argument combination x every sequence of 3 (quick) / 4 setter calls, and every behaviour is replayed on a real Stream with the four stated relations evaluated after each call; spec/StreamColl.tla (insertion-ordered dictionary with string keys, clash renaming, stable sorted view, member setters the collection is not told about) is model-checked exhaustively and TLC-simulated behaviours are replayed on real StreamCollection objects with membership/len/iteration-order/concatenation checked after every call.",
    "Film coefficient > 0; member names a, a, a_1, a_2; one known finding (KF-C19-dead) carved out by the predicate StreamObject!Dead, whose non-emptiness TLC demonstrates in the thorough tier.",
    "TLA+ spec + TLC exhaustive model check; TLC-generated behaviours replayed on the real objects"),
+ "C02": ("model_checking", "7/C02",
+   "TLC (spec/SiteGen.tla) enumerates every small site problem (<=2-3 lattice streams x zone assignment x request ladder incl. generation/use levels and gliding utilities); the real service is run on each and the recorded records are validated by TLC against spec/TraceSite.tla, which recomputes the stream duties per zone and checks Qh-Qc, Qr, non-negativity and the hot/cold utility difference on every record kind (DI, total-process, total-site). Site-level algebra of the utility allocation is model-checked in spec/Utility.tla (C03).",
+   "Reported floats are transported to TLC in fixed point (1e-4 lattice units) and compared within 12 units; quick tier samples ~1200 problems deterministically by VERIF_SEED.",
+   "TLA+ generator spec + real executions judged by a TLA+ trace specification checked with TLC"),
+ "C09": ("model_checking", "7/C09",
+   "Same traces as C02: TLC checks on every site that the total-process record is the sum of its zones' direct-integration records value by value and utility by utility, that DI(site) <= total-site <= sum of zones for Qh and Qc, and the recovery identity; zone targets are additionally compared with the definitional cascade of each zone's streams.",
+   "As C02; sites of 2 zones (quick) / 3 zones (thorough), nested labels exercised through the 'nest' description.",
+   "TLA+ generator spec + real executions judged by a TLA+ trace specification checked with TLC"),
+ "C12": ("model_checking", "7/C12",
+   "spec/SiteGen.tla defines the transformation group (stream permutation with value-with-unit numbers, split at a temperature, parallel split, zone swap, nesting, translation onto a frame in which a level is exactly 0.0, duty scaling, mirroring); every generated problem is run in every description and spec/TraceSite.tla checks record-by-record equality of targets, pinches and per-utility duties after transport (mirror: hot<->cold, T -> M - T).",
+   "Mirroring only for default-utility ladders (an isothermal utility's 0.1 K glide is placed asymmetrically by construction); graph data are compared under C13.",
+   "TLA+ generator spec + real executions judged by a TLA+ trace specification checked with TLC"),
+ "C14": ("model_checking", "7/C14",
+   "Same traces: any exception, non-finite number, missing/duplicate direct-integration record (every site/process zone of the prepared tree, incl. three-level nesting), reported temperature outside the input envelope, JSON round-trip failure or difference between repeated calls is a violation; numbers as floats and as value-with-unit objects.",
+   "Analysis options other than DT_CONT / DT_PHASE_CHANGE are exercised by the options sweep of the thorough tier only; heat-pump targeting (stochastic optimiser) is not modelled.",
+   "TLA+ generator spec + real executions judged by a TLA+ trace specification checked with TLC"),
 }
 NOT_YET = {}
 
